@@ -74,6 +74,8 @@ def data_case(draw, n, d, centre, r=None, spread=1000.0, s0=(0.5, 8.0), mean_gap
     # subtract n*m*m^T from X^T X instead of centring first cancel catastrophically there
     scale = draw(st.sampled_from([1.0, 1.0, 1.0, 1.0e3, 1.0e5]))
     case["mean"] = [v * scale for v in mean]
+    # the unit of the data is arbitrary: the whole matrix times 2^unit_pow (exact in binary)
+    case["unit_pow"] = draw(st.sampled_from([0, 0, 0, 0, -20, 20]))
     return case
 
 
@@ -119,6 +121,7 @@ def build_data(case):
     x = (a * singular_values(case)[None, :]).dot(b.T)
     if case["centre"]:
         x = x + np.asarray(case["mean"], dtype=float)[None, :]
+    x = x * 2.0 ** int(case.get("unit_pow", 0))
     return np.ascontiguousarray(x, dtype=float)
 
 
